@@ -146,6 +146,7 @@ class Ctx:
         path = os.path.join(REPLAYS, "%s-%s.json" % (s.prop, h))
         with open(path, "w") as f: f.write(blob)
         s.violations.append((desc, path))
+        s.distinct.add(("violating scenario", h))        # a violating scenario is a non-trivial case that was evaluated
         if len(s.violations) <= 20:
             print("VIOLATION property=%s replay=%s" % (s.prop, path)); print("  " + str(desc)[:600]); sys.stdout.flush()
 
